@@ -270,9 +270,18 @@ impl FsCommand {
     /// Returns a random temporary file name in the same directory, guaranteed to not collide with
     /// any other file in the same directory
     pub fn temp_file(path: &Path) -> Path {
-        let mut name = path
+        let name = path
             .file_name()
             .expect("must be a regular file with a name");
+        // File names are limited to 255 bytes on most file systems,
+        // leave the room for the 25 bytes of the suffix.
+        #[cfg(unix)]
+        let name = {
+            use std::os::unix::ffi::{OsStrExt, OsStringExt};
+            let bytes = name.as_bytes();
+            std::ffi::OsString::from_vec(bytes[..min(bytes.len(), 230)].to_vec())
+        };
+        let mut name = name;
         name.push(".");
         name.push(
             rand::thread_rng()
